@@ -8,7 +8,7 @@ class AbstractStructure(Structure):
     """
 
     def __init__(self, *args, **kwargs):
-        found = False
+        found = self.__class__ is AbstractStructure
         for clz in self.__class__.__bases__:
             if clz is AbstractStructure:
                 found = True
